@@ -87,3 +87,41 @@ Proof. vm_compute. reflexivity. Qed.
 Example ex_first_active_computed :
   map (fun xw => first_active_at ex_kv 2 (fst xw)) ex_pts = [0; 0; 2; 2; 3; 3]%nat.
 Proof. vm_compute. reflexivity. Qed.
+
+(* ---- biform_1d_entry / biform_asym_entry / nqp_default_exact: hypotheses are satisfiable ---- *)
+From Verif.C09 Require Import Proofs_entry.
+
+(* the example knot vector and rule meet the hypotheses of biform_1d_entry (ex_kv_ok,
+   ex_ref_inside); the grid hypothesis of biform_asym_entry holds for the default grid ... *)
+Example ex_grid_refines : grid_refines ex_kv (mesh ex_kv).
+Proof. exact (mesh_refines_self ex_kv 2 ex_kv_ok). Qed.
+
+(* ... and for a second, coarser space of another degree on the same domain with the FINER mesh
+   as quadrature grid (kv2 = degree 1, breakpoints 0, 1/2, 1) *)
+Definition ex_kv2 := map (fun z => q z 4) [0;0;2;4;4]%Z.
+Example ex_grid_refines2 : forall k, (S k < length (mesh ex_kv))%nat ->
+  nth k (mesh ex_kv) 0 < nth (S k) (mesh ex_kv) 0 /\
+  exists s, (S s < length ex_kv2)%nat /\ kn ex_kv2 s <= nth k (mesh ex_kv) 0 /\ nth (S k) (mesh ex_kv) 0 <= kn ex_kv2 (S s).
+Proof.
+  intros k Hk. change (length (mesh ex_kv)) with 4%nat in Hk.
+  destruct k as [|[|[|k]]]; try lia.
+  - split; [apply qltb_iff; vm_compute; reflexivity|]. exists 1%nat. repeat split; try (cbn; lia); apply qleb_iff; vm_compute; reflexivity.
+  - split; [apply qltb_iff; vm_compute; reflexivity|]. exists 1%nat. repeat split; try (cbn; lia); apply qleb_iff; vm_compute; reflexivity.
+  - split; [apply qltb_iff; vm_compute; reflexivity|]. exists 2%nat. repeat split; try (cbn; lia); apply qleb_iff; vm_compute; reflexivity.
+Qed.
+
+(* the conclusion of biform_1d_entry computed on the example: entry (1,2) of the (du,dv) = (1,0)
+   matrix against the reference sum *)
+Example ex_entry_computed :
+  qeqb (entry1d ex_kv 2 1 0 ex_ref None 1 2)
+       (sumf (fun xw => snd xw * (dNref ex_kv 0 2 1 (fst xw) * dNref ex_kv 1 2 2 (fst xw))) ex_pts) = true
+  /\ qeqb (entry1d ex_kv 2 1 0 ex_ref None 1 2) 0 = false.
+Proof. vm_compute. split; reflexivity. Qed.
+
+(* nqp: default node counts, and an exact rule passing the table check with eps = 0 (midpoint rule) *)
+Example ex_nqp : map (fun d => nqp_default 4 (fst d) (snd d)) [(0, 0); (1, 1); (2, 2); (1, 0)]%nat = [3; 2; 1; 2]%Z.
+Proof. vm_compute. reflexivity. Qed.
+Example ex_rule_ok : rule_ok 0 1 [(q 0 1, q 2 1)] = true.
+Proof. vm_compute. reflexivity. Qed.
+Example ex_nqp_is_one : Z.to_nat (nqp_default 4 2 2) = 1%nat.
+Proof. vm_compute. reflexivity. Qed.
